@@ -14,10 +14,11 @@ its surface shape:
       generators / *args / **kwargs.  The CFG builder gives InlineBlock /
       InlineJump their exact control flow (returns nested in loops or try
       blocks included).
+  N3  setattr(x, "name", v) / getattr(x, "name") with a constant identifier -> plain attribute store / load.
   N2  unrolling of `for` loops over a literal list / tuple display (or over a
       class / module constant that is such a display and is not in
       spec/known_functions.json's constants) of at most 8 items without
-      break / continue in the body.
+      break / continue in the body; constant items are substituted for the loop variables.
 
 Every rewrite preserves behaviour (up to local names), so a rule that holds on
 the normal form holds on the source.  A call that cannot be inlined is left
@@ -114,6 +115,65 @@ def _local_names(fdef):
     for s in fdef.body:
         visit(ast.Module(body=[s], type_ignores=[]))
     return out
+
+
+def _is_const(e):
+    if isinstance(e, ast.Constant):
+        return True
+    if isinstance(e, (ast.Tuple, ast.List)):
+        return all(_is_const(x) for x in e.elts)
+    return False
+
+
+def _const_binding(target, value):
+    """{name: constant AST} when `target = value` binds plain names to constants only, else None."""
+    if isinstance(target, ast.Name):
+        return {target.id: value} if _is_const(value) else None
+    if isinstance(target, (ast.Tuple, ast.List)) and isinstance(value, (ast.Tuple, ast.List)) and len(target.elts) == len(value.elts):
+        out = {}
+        for t, v in zip(target.elts, value.elts):
+            sub = _const_binding(t, v)
+            if sub is None:
+                return None
+            out.update(sub)
+        return out
+    return None
+
+
+class _ConstSub(ast.NodeTransformer):
+    def __init__(self, m):
+        self.m = m
+
+    def visit_Name(self, node):
+        if isinstance(node.ctx, ast.Load) and node.id in self.m:
+            return ast.copy_location(copy.deepcopy(self.m[node.id]), node)
+        return node
+
+    def visit_FormattedValue(self, node):
+        self.generic_visit(node)
+        return node
+
+
+class _AttrCalls(ast.NodeTransformer):
+    """N3: setattr(x, "name", v) -> x.name = v ; getattr(x, "name") -> x.name   (constant identifier names)"""
+
+    def visit_Expr(self, node):
+        self.generic_visit(node)
+        c = node.value
+        if isinstance(c, ast.Call) and isinstance(c.func, ast.Name) and c.func.id == "setattr" and len(c.args) == 3 and not c.keywords \
+                and isinstance(c.args[1], ast.Constant) and isinstance(c.args[1].value, str) and c.args[1].value.isidentifier():
+            a = ast.Assign(targets=[ast.Attribute(value=c.args[0], attr=c.args[1].value, ctx=ast.Store())], value=c.args[2], type_comment=None)
+            ast.copy_location(a, node)
+            ast.fix_missing_locations(a)
+            return a
+        return node
+
+    def visit_Call(self, node):
+        self.generic_visit(node)
+        if isinstance(node.func, ast.Name) and node.func.id == "getattr" and len(node.args) == 2 and not node.keywords \
+                and isinstance(node.args[1], ast.Constant) and isinstance(node.args[1].value, str) and node.args[1].value.isidentifier():
+            return ast.copy_location(ast.Attribute(value=node.args[0], attr=node.args[1].value, ctx=ast.Load()), node)
+        return node
 
 
 class _Rename(ast.NodeTransformer):
@@ -310,6 +370,7 @@ class Normalizer:
                     for s in st.body:
                         if isinstance(s, ast.FunctionDef):
                             self._function(s, modname, st.name, (f"{modname}:{st.name}.{s.name}",))
+            mod.tree = _AttrCalls().visit(mod.tree)
         return self
 
     def _function(self, fdef, modname, cname, stack):
@@ -516,7 +577,15 @@ class Normalizer:
             if isinstance(n, (ast.Break, ast.Continue)):
                 return None
         out = []
+        stored = {n.id for n in ast.walk(ast.Module(body=st.body, type_ignores=[]))
+                  if isinstance(n, ast.Name) and isinstance(n.ctx, (ast.Store, ast.Del))}
         for e in disp.elts:
+            m = _const_binding(st.target, e)
+            if m is not None and not (set(m) & stored):
+                # constant items: substitute them for the loop variables
+                for s in copy.deepcopy(st.body):
+                    out.append(_ConstSub(m).visit(s))
+                continue
             asg = ast.Assign(targets=[copy.deepcopy(st.target)], value=copy.deepcopy(e), type_comment=None)
             ast.copy_location(asg, st)
             ast.fix_missing_locations(asg)
